@@ -346,7 +346,7 @@ def gen_tree(rng, depth, draws, nb=2, nv=2, in_exp=False):
             k = 'add'
         else:
             # keep the argument small: exp(0.001 * t)
-            return {'k': 'exp', 'a': {'k': 'mul', 'a': {'k': 'num', 'm': 1, 'neg': rng.random() < 0.3, 'e': 3}, 'b': gen_tree(rng, depth - 1, draws, nb, nv, True)}}
+            return {'k': 'exp', 'a': {'k': 'mul', 'a': {'k': 'num', 'm': 1, 'neg': rng.random() < 0.3, 'e': 3}, 'b': gen_tree(rng, min(depth - 1, 1), draws, nb, nv, True)}}
     return {'k': k, 'a': gen_tree(rng, depth - 1, draws, nb, nv, in_exp), 'b': gen_tree(rng, depth - 1, draws, nb, nv, in_exp)}
 
 
@@ -400,7 +400,10 @@ def py_eval(t, betas, row, xi):
     if k == 'draw':
         return xi[t['n']]
     if k == 'exp':
-        return math.exp(py_eval(t['a'], betas, row, xi))
+        try:
+            return math.exp(py_eval(t['a'], betas, row, xi))
+        except OverflowError:
+            return math.inf
     a, b = py_eval(t['a'], betas, row, xi), py_eval(t['b'], betas, row, xi)
     return a + b if k == 'add' else a - b if k == 'sub' else a * b
 
